@@ -10,7 +10,21 @@ type Ctx struct {
 	// Skip names trigger predicates of open known findings: generators steer
 	// around scenarios matching them.
 	Skip map[string]bool
+	// Obs is a digest of what the run observed (outputs, events, results); it
+	// is part of the per-run digest compared by the determinism self-test.
+	Obs uint64
 }
+
+// Observe folds observed output into the run digest.
+func (x *Ctx) Observe(b []byte) {
+	h := x.Obs ^ 14695981039346656037
+	for _, c := range b {
+		h = (h ^ uint64(c)) * 1099511628211
+	}
+	x.Obs = h*1099511628211 + uint64(len(b))
+}
+
+func (x *Ctx) ObserveStr(s string) { x.Observe([]byte(s)) }
 
 // Engine explores one run: it draws a scenario from c, executes it against
 // the real library under the simulated environment and evaluates the oracle.
